@@ -158,6 +158,13 @@ class Session:
     def prove(self, name, goal, hyps=(), kind="ensures", **info):
         if isinstance(goal, Sym):
             goal = goal.t
+        if goal is False and kind in ("noraise", "lemma"):
+            why = str(info.get("why", ""))
+            if "raises None" in why or why.startswith(("unsupported", "cut")):
+                # a contract reported a path that merely LEFT THE VERIFIER'S REACH (no exception object) as "raises":
+                # that is undecided, never a violation
+                self.unsupported.append((name.split("#")[0], f"path without an exception reported as raising ({why[:60]})"))
+                return Obligation(name=name, kind=kind, hyps=[], goal=True, info=info)
         hy = []
         for h in hyps:
             hy.append(h.t if isinstance(h, Sym) else h)
@@ -230,6 +237,12 @@ class Session:
         return self.prove(name, z3.And([l == r for l, r in eqs]), hyps=hyps, kind=kind, **info)
 
     def register_function(self, I, qualname, npaths):
+        try:
+            self._register_function(I, qualname, npaths)
+        except Exception as e:  # noqa: BLE001   (a function object of a shape the registry does not know: recorded, never fatal)
+            self.functions[qualname] = {"sha": None, "paths": npaths, "note": f"source not located ({type(e).__name__})"}
+
+    def _register_function(self, I, qualname, npaths):
         try:
             fv = I.get_function(qualname)
         except Exception:
